@@ -170,6 +170,24 @@ structure ExpInv (nav : Nav) (c : Nat) (B : Nat × Bool → Option Nat) (st : Li
     (∀ k, k < nav.nvAt p → ∀ s, t.lab (p, s) = some c ∨ (p, k, s) ∈ st) ∨
     (t.lab (p, false) ≠ some c ∧ t.lab (p, true) ≠ some c ∧ ∀ x ∈ st, x.1 ≠ p)
 
+/-- adjacency of op sides: a side and the side of the link partner of one of its legs; the two sides of a
+non-edge op -/
+inductive NAdj (nav : Nav) : Nat × Bool → Nat × Bool → Prop
+  | link (x : TLeg) : nav.ValidLeg x → NAdj nav x.side (nav.partner x).side
+  | star (p : Nat) (s : Bool) : p < nav.ops.size → 0 < nav.nvAt p → nav.isEdgeAt p = false → NAdj nav (p, s) (p, !s)
+
+/-- reachability of op sides -/
+def NConn (nav : Nav) : Nat × Bool → Nat × Bool → Prop := Relation.ReflTransGen (NAdj nav)
+
+/-- second invariant of `expandLoop`, for the cluster started at side `q0`: what is labelled is reachable from
+`q0`; a cluster edge labelled on one side only has its other side in the frontier (or is the start side) -/
+structure ExpInv2 (nav : Nav) (c : Nat) (q0 : Nat × Bool) (st : List TLeg) (t : Trav) : Prop where
+  conn : ∀ q, t.lab q = some c → NConn nav q0 q
+  stackConn : ∀ x ∈ st, NConn nav q0 x.side
+  stackEdge : ∀ x ∈ st, nav.isEdgeAt x.1 = true → x.side = q0
+  half : ∀ q s', nav.isEdgeAt q = true → t.lab (q, s') = some c → t.lab (q, !s') = none →
+    (q, !s') ∈ t.frontier ∨ (q, s') = q0
+
 /-- legs still to be pushed: `2·nv` for every non-edge op one of whose sides is unlabelled -/
 def pendAt (nav : Nav) (t : Trav) (p : Nat) : Nat :=
   if nav.isEdgeAt p = false ∧ (t.lab (p, false) = none ∨ t.lab (p, true) = none) then 2 * nav.nvAt p else 0
@@ -260,6 +278,40 @@ theorem expInv_step {nav : Nav} {c : Nat} {B : Nat × Bool → Option Nat} {x : 
         · rw [hNx] at hN; cases hN
         · exact Or.inr (hsub z h)
     · exact hcl z hz hN
+
+theorem expInv2_step {nav : Nav} {c : Nat} {q0 : Nat × Bool} {x : TLeg} {rest st' : List TLeg} {t t' : Trav}
+    {N : Nat × Bool → Bool} (h2 : ExpInv2 nav c q0 (x :: rest) t) (hr : Relabel c N t t')
+    (hNconn : ∀ q, N q = true → NConn nav q0 q)
+    (hstc : ∀ z ∈ st', z ∈ rest ∨ (NConn nav q0 z.side ∧ nav.isEdgeAt z.1 = false))
+    (hfsub : ∀ e ∈ t.frontier, e ∈ t'.frontier)
+    (hhalfN : ∀ q s', nav.isEdgeAt q = true → N (q, s') = true → t'.lab (q, !s') = none →
+      (q, !s') ∈ t'.frontier ∨ (q, s') = q0) : ExpInv2 nav c q0 st' t' := by
+  refine ⟨?_, ?_, ?_, ?_⟩
+  · intro q hq
+    rw [hr.lab] at hq
+    cases hN : N q
+    · rw [hN] at hq; exact h2.conn q hq
+    · exact hNconn q hN
+  · intro z hz
+    rcases hstc z hz with h | h
+    · exact h2.stackConn z (List.mem_cons_of_mem _ h)
+    · exact h.1
+  · intro z hz hed
+    rcases hstc z hz with h | h
+    · exact h2.stackEdge z (List.mem_cons_of_mem _ h) hed
+    · rw [h.2] at hed; cases hed
+  · intro q s' hed hl hn
+    cases hN : N (q, s')
+    · rw [hr.lab, hN] at hl
+      have hn' : t.lab (q, !s') = none := by
+        rw [hr.lab] at hn
+        split at hn
+        · cases hn
+        · exact hn
+      rcases h2.half q s' hed hl hn' with h | h
+      · exact Or.inl (hfsub _ h)
+      · exact Or.inr h
+    · exact hhalfN q s' hed hN hn
 
 /-! ### lists of legs -/
 
@@ -361,9 +413,11 @@ theorem star_first {x : TLeg} {rest st' : List TLeg} {t t' : Trav} {N : Nat × B
     · exact Or.inr (hsub _ h)
 
 /-- what one iteration hands to the next -/
-structure StepRes (nav : Nav) (c : Nat) (B : Nat × Bool → Option Nat) (x : TLeg) (rest : List TLeg) (t : Trav)
-    (st' : List TLeg) (t' : Trav) : Prop where
+structure StepRes (nav : Nav) (c : Nat) (B : Nat × Bool → Option Nat) (q0 : Nat × Bool) (x : TLeg)
+    (rest : List TLeg) (t : Trav) (st' : List TLeg) (t' : Trav) : Prop where
   inv : ExpInv nav c B st' t'
+  inv2 : ExpInv2 nav c q0 st' t'
+  fsub : ∀ e ∈ t.frontier, e ∈ t'.frontier
   head : t'.lab x.side = some c
   sub : ∀ z ∈ rest, z ∈ st'
   reps : t'.reps = t.reps
@@ -373,9 +427,9 @@ structure StepRes (nav : Nav) (c : Nat) (B : Nat × Bool → Option Nat) (x : TL
   front : ∀ e ∈ t'.frontier, e ∈ t.frontier ∨ (nav.isEdgeAt e.1 = true ∧ e.1 < nav.ops.size ∧ t'.lab (e.1, !e.2) = some c)
 
 theorem expandLoop_step (hN : NavSpec nav) (hB : BeforeOK nav c B) (fuel : Nat) (x : TLeg) (rest : List TLeg)
-    (t : Trav) (hinv : ExpInv nav c B (x :: rest) t) :
+    (t : Trav) (hinv : ExpInv nav c B (x :: rest) t) (q0 : Nat × Bool) (hinv2 : ExpInv2 nav c q0 (x :: rest) t) :
     ∃ st' t', expandLoop nav c (fuel + 1) (x :: rest) t = expandLoop nav c fuel st' t' ∧
-      StepRes nav c B x rest t st' t' := by
+      StepRes nav c B q0 x rest t st' t' := by
   have hxv := (hinv.stack x (List.mem_cons_self ..)).1
   have hxB := (hinv.stack x (List.mem_cons_self ..)).2
   have hyv := hN.valid x hxv
@@ -427,14 +481,17 @@ theorem expandLoop_step (hN : NavSpec nav) (hB : BeforeOK nav c B) (fuel : Nat) 
       obtain ⟨x1, x2, x3⟩ := x
       simp only at hz1 hz2 hzk hxk
       rw [hz1, hz2, hzk, hxk]
+  have hcx : NConn nav q0 x.side := hinv2.stackConn x (List.mem_cons_self ..)
+  have hcy : NConn nav q0 (nav.partner x).side := Relation.ReflTransGen.tail hcx (NAdj.link x hxv)
+  have hxedge : nav.isEdgeAt x.1 = true → x.side = q0 := hinv2.stackEdge x (List.mem_cons_self ..)
   rw [expandLoop_cons, ht1]
   by_cases hed : nav.isEdgeAt (nav.partner x).1 = true
   · -- the link ends on a cluster edge
     rw [if_pos hed]
     have hoky := hlaby (nav.partner x).2.2 (Or.inr rfl)
     have h2 := relabel_of_set hpy hqy hoky
-    obtain ⟨-, hf2, -, -, -, -, -⟩ := setBoundary_spec t1 _ _ c hpy hqy hoky
-    generalize ht2 : (t1.setBoundary (nav.partner x).1 (nav.partner x).2.2 c) = r2 at h2 hf2
+    obtain ⟨-, hf2, -, -, -, -, hb2⟩ := setBoundary_spec t1 _ _ c hpy hqy hoky
+    generalize ht2 : (t1.setBoundary (nav.partner x).1 (nav.partner x).2.2 c) = r2 at h2 hf2 hb2
     have h12 := h1.trans h2
     obtain ⟨N, hNdef⟩ : ∃ N : Nat × Bool → Bool, N = fun q =>
         decide (q = ((nav.partner x).1, (nav.partner x).2.2)) || decide (q = x.side) := ⟨_, rfl⟩
@@ -502,11 +559,38 @@ theorem expandLoop_step (hN : NavSpec nav) (hB : BeforeOK nav c B) (fuel : Nat) 
       rw [hf2]
       obtain ⟨-, hf1, -⟩ := setBoundary_spec t x.1 x.2.2 c hpx hqx hokx
       rw [← ht1]; exact hf1
+    have hNconn : ∀ q, N q = true → NConn nav q0 q := by
+      intro q hq
+      rw [hNdef] at hq
+      simp only [Bool.or_eq_true, decide_eq_true_eq] at hq
+      rcases hq with hq | hq
+      · rw [hq]; exact hcy
+      · rw [hq]; exact hcx
+    have hhalfx : ∀ q s', nav.isEdgeAt q = true → (q, s') = x.side → (q, s') = q0 := by
+      intro q s' hq he
+      have : q = x.1 := (Prod.mk.inj (he : (q, s') = (x.1, x.2.2))).1
+      rw [he]; exact hxedge (this ▸ hq)
     by_cases hboth : (!r2.2) = true
     · rw [if_pos hboth]
       obtain ⟨k1, k2, k3⟩ := key { r2.1 with frontier := ((nav.partner x).1, !(nav.partner x).2.2) :: r2.1.frontier }
         (fun q => rfl) rfl rfl rfl rfl
-      refine ⟨rest, _, rfl, k1, by rw [lab_frontier, h12.lab, hNx]; rfl, fun z hz => hz, h12.reps, k3, by omega,
+      have hr3 : Relabel c N t { r2.1 with frontier := ((nav.partner x).1, !(nav.partner x).2.2) :: r2.1.frontier } :=
+        ⟨h12.sizeIn, h12.sizeOut, h12.bad, h12.reps, fun q => by rw [lab_frontier, h12.lab]⟩
+      have hi2 : ExpInv2 nav c q0 rest
+          { r2.1 with frontier := ((nav.partner x).1, !(nav.partner x).2.2) :: r2.1.frontier } := by
+        refine expInv2_step hinv2 hr3 hNconn (fun z hz => Or.inl hz)
+          (fun e he => List.mem_cons_of_mem _ (hf12 ▸ he)) ?_
+        intro q s' hq hNq _
+        rw [hNdef] at hNq
+        simp only [Bool.or_eq_true, decide_eq_true_eq] at hNq
+        rcases hNq with hNq | hNq
+        · left
+          have e1 : q = (nav.partner x).1 := (Prod.mk.inj hNq).1
+          have e2 : s' = (nav.partner x).2.2 := (Prod.mk.inj hNq).2
+          rw [e1, e2]; exact List.mem_cons_self ..
+        · exact Or.inr (hhalfx q s' hq hNq)
+      refine ⟨rest, _, rfl, k1, hi2, fun e he => List.mem_cons_of_mem _ (hf12 ▸ he),
+        by rw [lab_frontier, h12.lab, hNx]; rfl, fun z hz => hz, h12.reps, k3, by omega,
         by simp [hf12], ?_⟩
       intro e he
       simp only [List.mem_cons] at he
@@ -518,8 +602,24 @@ theorem expandLoop_step (hN : NavSpec nav) (hB : BeforeOK nav c B) (fuel : Nat) 
       · left; rw [← hf12]; exact he
     · rw [if_neg hboth]
       obtain ⟨k1, k2, k3⟩ := key r2.1 (fun q => rfl) rfl rfl rfl rfl
-      exact ⟨rest, _, rfl, k1, by rw [h12.lab, hNx]; rfl, fun z hz => hz, h12.reps, k3, by omega, by rw [hf12]; omega,
-        fun e he => Or.inl (hf12 ▸ he)⟩
+      have hi2 : ExpInv2 nav c q0 rest r2.1 := by
+        refine expInv2_step hinv2 h12 hNconn (fun z hz => Or.inl hz) (fun e he => hf12 ▸ he) ?_
+        intro q s' hq hNq hnone
+        rw [hNdef] at hNq
+        simp only [Bool.or_eq_true, decide_eq_true_eq] at hNq
+        rcases hNq with hNq | hNq
+        · exfalso
+          have e1 : q = (nav.partner x).1 := (Prod.mk.inj hNq).1
+          have e2 : s' = (nav.partner x).2.2 := (Prod.mk.inj hNq).2
+          have hb : r2.2 = true := by simpa using hboth
+          rw [hb2, Bool.and_eq_true] at hb
+          rw [e1, e2] at hnone
+          cases hs2 : (nav.partner x).2.2 <;> rw [hs2] at hnone <;> simp only [Bool.not_false, Bool.not_true] at hnone
+          · rw [hnone] at hb; simp at hb
+          · rw [hnone] at hb; simp at hb
+        · exact Or.inr (hhalfx q s' hq hNq)
+      exact ⟨rest, _, rfl, k1, hi2, fun e he => hf12 ▸ he, by rw [h12.lab, hNx]; rfl, fun z hz => hz, h12.reps, k3,
+        by omega, by rw [hf12]; omega, fun e he => Or.inl (hf12 ▸ he)⟩
   · -- the link ends on an op that is not a cluster edge
     have hedf : nav.isEdgeAt (nav.partner x).1 = false := by simpa using hed
     rw [if_neg hed]
@@ -531,7 +631,7 @@ theorem expandLoop_step (hN : NavSpec nav) (hB : BeforeOK nav c B) (fuel : Nat) 
     rw [ht1] at hf1
     -- the not-entered case, shared
     have notEnter : t1.lab ((nav.partner x).1, false) = some c → t1.lab ((nav.partner x).1, true) = some c →
-        StepRes nav c B x rest t rest t1 := by
+        StepRes nav c B q0 x rest t rest t1 := by
       intro ha' hb'
       have hy1 : t1.lab (nav.partner x).side = some c := by
         rw [TLeg.side_eq]; cases (nav.partner x).2.2
@@ -539,7 +639,13 @@ theorem expandLoop_step (hN : NavSpec nav) (hB : BeforeOK nav c B) (fuel : Nat) 
         · exact hb'
       have hNx : (fun q => decide (q = x.side)) x.side = true := by simp
       refine ⟨expInv_step hinv h1 hNx (fun q hq => by rw [of_decide_eq_true hq]; exact hxB) (fun z hz => hz)
-        (fun z hz => hinv.stack z (List.mem_cons_of_mem _ hz)) ?_ ?_, hx1, fun z hz => hz, h1.reps,
+        (fun z hz => hinv.stack z (List.mem_cons_of_mem _ hz)) ?_ ?_,
+        expInv2_step hinv2 h1 (fun q hq => by rw [of_decide_eq_true hq]; exact hcx) (fun z hz => Or.inl hz)
+          (fun e he => hf1 ▸ he) (fun q s' hq hNq _ => Or.inr (by
+            have he : (q, s') = x.side := of_decide_eq_true hNq
+            have : q = x.1 := (Prod.mk.inj (he : (q, s') = (x.1, x.2.2))).1
+            rw [he]; exact hxedge (this ▸ hq))),
+        fun e he => hf1 ▸ he, hx1, fun z hz => hz, h1.reps,
         fun q hq => h1.persist hq, by have := h1.pend_le nav; omega, by rw [hf1]; omega, fun e he => Or.inl (hf1 ▸ he)⟩
       · intro z hz hNz
         have hNz' : z.side = x.side := of_decide_eq_true hNz
@@ -564,7 +670,7 @@ theorem expandLoop_step (hN : NavSpec nav) (hB : BeforeOK nav c B) (fuel : Nat) 
             rw [this]; exact h.2.1
     -- the entered case, shared
     have enter : (t1.lab ((nav.partner x).1, false) = none ∨ t1.lab ((nav.partner x).1, true) = none) →
-        StepRes nav c B x rest t (pushAll rest (enterLegs nav (nav.partner x).1 (nav.partner x).2.1 (nav.partner x).2.2))
+        StepRes nav c B q0 x rest t (pushAll rest (enterLegs nav (nav.partner x).1 (nav.partner x).2.1 (nav.partner x).2.2))
           ((t1.setBoundary (nav.partner x).1 false c).1.setBoundary (nav.partner x).1 true c).1 := by
       intro hnone
       have h2 := relabel_of_set hpy hqy ha
@@ -608,7 +714,37 @@ theorem expandLoop_step (hN : NavSpec nav) (hB : BeforeOK nav c B) (fuel : Nat) 
           simp only at h
           rw [h]; exact side_free hB hinv h1 (hlaby q2 (Or.inl hedf))
         · rw [h]; exact hxB
+      have hcy' : ∀ s', NConn nav q0 ((nav.partner x).1, s') := by
+        intro s'
+        by_cases e : s' = (nav.partner x).2.2
+        · rw [e]; exact hcy
+        · have : s' = !(nav.partner x).2.2 := by cases s' <;> cases h' : (nav.partner x).2.2 <;> simp_all
+          rw [this]
+          exact Relation.ReflTransGen.tail hcy
+            (NAdj.star _ _ hyv.1 (Nat.lt_of_le_of_lt (Nat.zero_le _) hyv.2) hedf)
+      have hi2 : ExpInv2 nav c q0
+          (pushAll rest (enterLegs nav (nav.partner x).1 (nav.partner x).2.1 (nav.partner x).2.2)) t3 := by
+        refine expInv2_step hinv2 h13 ?_ ?_ (fun e he => hfr3 ▸ he) ?_
+        · intro q hq
+          rcases hNiff q hq with h | h
+          · obtain ⟨q1, q2⟩ := q
+            simp only at h
+            rw [h]; exact hcy' q2
+          · rw [h]; exact hcx
+        · intro z hz
+          rcases (mem_pushAll _ _ _).mp hz with hz | hz
+          · right
+            have hz1 := ((mem_enterLegs _ _ _ _ _).mp hz).1.1
+            exact ⟨by rw [TLeg.side_eq, hz1]; exact hcy' _, by rw [hz1]; exact hedf⟩
+          · exact Or.inl hz
+        · intro q s' hq hNq _
+          rcases hNiff _ hNq with h | h
+          · simp only at h; rw [h, hedf] at hq; cases hq
+          · right
+            have : q = x.1 := (Prod.mk.inj (h : (q, s') = (x.1, x.2.2))).1
+            rw [h]; exact hxedge (this ▸ hq)
       refine ⟨expInv_step hinv h13 hNx hNB (fun z hz => (mem_pushAll _ _ _).mpr (Or.inr hz)) hst' ?_ ?_,
+        hi2, fun e he => hfr3 ▸ he,
         by rw [h13.lab, hNx]; rfl, fun z hz => (mem_pushAll _ _ _).mpr (Or.inr hz),
         h13.reps, fun q hq => h13.persist hq, ?_, by rw [hfr3]; omega, fun e he => Or.inl (hfr3 ▸ he)⟩
       · intro z hz hNz
@@ -685,8 +821,11 @@ theorem expandLoop_step (hN : NavSpec nav) (hB : BeforeOK nav c B) (fuel : Nat) 
       exact ⟨_, _, rfl, notEnter ha hb⟩
 
 /-- what a finished expansion returns -/
-structure ExpRes (nav : Nav) (c : Nat) (B : Nat × Bool → Option Nat) (st : List TLeg) (t r : Trav) : Prop where
+structure ExpRes (nav : Nav) (c : Nat) (B : Nat × Bool → Option Nat) (q0 : Nat × Bool) (st : List TLeg)
+    (t r : Trav) : Prop where
   inv : ExpInv nav c B [] r
+  inv2 : ExpInv2 nav c q0 [] r
+  fsub : ∀ e ∈ t.frontier, e ∈ r.frontier
   reps : r.reps = t.reps
   persist : ∀ q, t.lab q = some c → r.lab q = some c
   started : ∀ x ∈ st, r.lab x.side = some c
@@ -696,17 +835,21 @@ structure ExpRes (nav : Nav) (c : Nat) (B : Nat × Bool → Option Nat) (st : Li
 
 /-- **one expansion**: from a state satisfying the invariant and with enough fuel, `expandLoop` ends with an
 empty stack, not `bad`, the invariant intact -/
-theorem expandLoop_ok (hN : NavSpec nav) (hB : BeforeOK nav c B) : ∀ (fuel : Nat) (st : List TLeg) (t : Trav),
-    ExpInv nav c B st t → st.length + pend nav t < fuel → ExpRes nav c B st t (expandLoop nav c fuel st t)
-  | 0, _, _, _, h => absurd h (Nat.not_lt_zero _)
-  | fuel + 1, [], t, hinv, _ => by
+theorem expandLoop_ok (hN : NavSpec nav) (hB : BeforeOK nav c B) (q0 : Nat × Bool) :
+    ∀ (fuel : Nat) (st : List TLeg) (t : Trav),
+    ExpInv nav c B st t → ExpInv2 nav c q0 st t → st.length + pend nav t < fuel →
+    ExpRes nav c B q0 st t (expandLoop nav c fuel st t)
+  | 0, _, _, _, _, h => absurd h (Nat.not_lt_zero _)
+  | fuel + 1, [], t, hinv, hinv2, _ => by
     rw [expandLoop_nil]
-    exact ⟨hinv, rfl, fun _ h => h, fun x hx => by simp at hx, by omega, fun e he => Or.inl he⟩
-  | fuel + 1, x :: rest, t, hinv, hf => by
-    obtain ⟨st', t', heq, hs⟩ := expandLoop_step hN hB fuel x rest t hinv
+    exact ⟨hinv, hinv2, fun _ h => h, rfl, fun _ h => h, fun x hx => by simp at hx, by omega, fun e he => Or.inl he⟩
+  | fuel + 1, x :: rest, t, hinv, hinv2, hf => by
+    obtain ⟨st', t', heq, hs⟩ := expandLoop_step hN hB fuel x rest t hinv q0 hinv2
     rw [heq]
-    have ih := expandLoop_ok hN hB fuel st' t' hs.inv (by have := hs.fuel; simp only [List.length_cons] at hf; omega)
-    refine ⟨ih.inv, ih.reps.trans hs.reps, fun q hq => ih.persist q (hs.persist q hq), ?_, ?_, ?_⟩
+    have ih := expandLoop_ok hN hB q0 fuel st' t' hs.inv hs.inv2
+      (by have := hs.fuel; simp only [List.length_cons] at hf; omega)
+    refine ⟨ih.inv, ih.inv2, fun e he => ih.fsub e (hs.fsub e he), ih.reps.trans hs.reps,
+      fun q hq => ih.persist q (hs.persist q hq), ?_, ?_, ?_⟩
     · intro z hz
       rcases List.mem_cons.mp hz with rfl | hz
       · exact ih.persist _ hs.head
@@ -721,7 +864,8 @@ theorem expandLoop_ok (hN : NavSpec nav) (hB : BeforeOK nav c B) : ∀ (fuel : N
       · exact Or.inr h
 
 /-- labels of other clusters are untouched, labels never disappear -/
-theorem ExpRes.old {st : List TLeg} {t r : Trav} (hB : BeforeOK nav c B) (hr : ExpRes nav c B st t r)
+theorem ExpRes.old {q0 : Nat × Bool} {st : List TLeg} {t r : Trav} (hB : BeforeOK nav c B)
+    (hr : ExpRes nav c B q0 st t r)
     (ht : ∀ q, t.lab q = B q) (q : Nat × Bool) (c' : Nat) (h : t.lab q = some c') : r.lab q = some c' := by
   rcases hr.inv.mono q with h' | h'
   · rw [h', ← ht, h]
@@ -745,7 +889,12 @@ structure OutInv (nav : Nav) (t : Trav) : Prop where
   closed : ∀ x, nav.ValidLeg x → ∀ c', t.lab x.side = some c' → t.lab (nav.partner x).side = some c'
   star : ∀ p, p < nav.ops.size → 0 < nav.nvAt p → nav.isEdgeAt p = false → t.lab (p, false) = t.lab (p, true)
   repsOK : ∀ i, i < t.reps.size → ∃ q : Nat × Bool, q.1 < nav.ops.size ∧ 0 < nav.nvAt q.1 ∧
-    t.reps[i]! = nav.sideLeg q ∧ t.lab q = some i
+    t.reps[i]! = nav.sideLeg q ∧ t.lab q = some i ∧ ∀ q', t.lab q' = some i → NConn nav q q'
+
+/-- an op labelled on one side only has its other side in the frontier (or it is the exception `P`) -/
+def HalfOK (nav : Nav) (t : Trav) (P : Nat × Bool → Prop) : Prop :=
+  ∀ q s', q < nav.ops.size → 0 < nav.nvAt q → (t.lab (q, s')).isSome = true → t.lab (q, !s') = none →
+    (q, !s') ∈ t.frontier ∨ P (q, !s')
 
 def unlAt (nav : Nav) (t : Trav) (p : Nat) : Nat :=
   (if 0 < nav.nvAt p ∧ t.lab (p, false) = none then 2 * nav.nvAt p + 3 else 0) +
@@ -776,7 +925,8 @@ theorem nv_le_nlegs (hN : NavSpec nav) {p : Nat} (hp : p < nav.ops.size) : 2 * n
 /-- **one cluster**: expanding from an unlabelled side of an op keeps the invariant of the outer loop, labels the
 side with the new cluster number, and pays for itself in the termination measure -/
 theorem expand_from (hN : NavSpec nav) (ef : Nat) (hef : 2 * nav.nlegs + 1 ≤ ef) (u : Trav) (hu : OutInv nav u)
-    (p : Nat) (s : Bool) (hp : p < nav.ops.size) (hnv : 0 < nav.nvAt p) (hfree : u.lab (p, s) = none) :
+    (p : Nat) (s : Bool) (hp : p < nav.ops.size) (hnv : 0 < nav.nvAt p) (hfree : u.lab (p, s) = none)
+    (hhalf : HalfOK nav u (fun e => e = (p, s))) (hsib : u.lab (p, !s) = none → (p, !s) ∈ u.frontier) :
     OutInv nav { expandWhole nav ef p s u.reps.size u with
         reps := (expandWhole nav ef p s u.reps.size u).reps.push (nav.sideLeg (p, s)) } ∧
     (expandWhole nav ef p s u.reps.size u).lab (p, s) = some u.reps.size ∧
@@ -784,17 +934,19 @@ theorem expand_from (hN : NavSpec nav) (ef : Nat) (hef : 2 * nav.nlegs + 1 ≤ e
     (expandWhole nav ef p s u.reps.size u).frontier.length + pend nav (expandWhole nav ef p s u.reps.size u) +
       unl nav (expandWhole nav ef p s u.reps.size u) + 3 ≤ u.frontier.length + pend nav u + unl nav u ∧
     (∀ e ∈ (expandWhole nav ef p s u.reps.size u).frontier, e ∈ u.frontier ∨
-      GOK nav (expandWhole nav ef p s u.reps.size u) e) := by
+      GOK nav (expandWhole nav ef p s u.reps.size u) e) ∧
+    HalfOK nav (expandWhole nav ef p s u.reps.size u) (fun _ => False) := by
   have hB : BeforeOK nav u.reps.size u.lab :=
     ⟨fun q h => Nat.lt_irrefl _ (hu.labLt q _ h), hu.closed, hu.star⟩
   -- the start stack
-  obtain ⟨st0, hst0, hvalid0, hlen0, hstar0, hmem0⟩ : ∃ st0 : List TLeg,
+  obtain ⟨st0, hst0, hvalid0, hlen0, hstar0, hmem0, hconn0, hedge0⟩ : ∃ st0 : List TLeg,
       expandWhole nav ef p s u.reps.size u = expandLoop nav u.reps.size ef st0 u ∧
       (∀ x ∈ st0, nav.ValidLeg x ∧ u.lab x.side = none) ∧ st0.length ≤ 2 * nav.nvAt p ∧
       (∀ q, q < nav.ops.size → nav.isEdgeAt q = false →
         (∀ k, k < nav.nvAt q → ∀ s', u.lab (q, s') = some u.reps.size ∨ (q, k, s') ∈ st0) ∨
         (u.lab (q, false) ≠ some u.reps.size ∧ u.lab (q, true) ≠ some u.reps.size ∧ ∀ x ∈ st0, x.1 ≠ q)) ∧
-      (∃ k, (p, k, s) ∈ st0) := by
+      (∃ k, (p, k, s) ∈ st0) ∧ (∀ x ∈ st0, NConn nav (p, s) x.side) ∧
+      (∀ x ∈ st0, nav.isEdgeAt x.1 = true → x.side = (p, s)) := by
     have hfresh : ∀ q, u.lab q ≠ some u.reps.size := hB.fresh
     cases hed : nav.isEdgeAt p
     · -- not a cluster edge: all legs
@@ -802,7 +954,13 @@ theorem expand_from (hN : NavSpec nav) (ef : Nat) (hef : 2 * nav.nlegs + 1 ≤ e
         intro s'
         have := hu.star p hp hnv hed
         cases s <;> cases s' <;> first | exact hfree | (rw [this]; exact hfree) | (rw [← this]; exact hfree)
-      refine ⟨pushAll [] (allLegs p (nav.nvAt p)), by simp [expandWhole, hed], ?_, ?_, ?_, ?_⟩
+      have hall : ∀ x ∈ pushAll [] (allLegs p (nav.nvAt p)), x.1 = p := by
+        intro x hx
+        rw [mem_pushAll] at hx
+        rcases hx with hx | hx
+        · exact ((mem_allLegs _ _ _).mp hx).1
+        · simp at hx
+      refine ⟨pushAll [] (allLegs p (nav.nvAt p)), by simp [expandWhole, hed], ?_, ?_, ?_, ?_, ?_, ?_⟩
       · intro x hx
         rw [mem_pushAll] at hx
         rcases hx with hx | hx
@@ -822,7 +980,19 @@ theorem expand_from (hN : NavSpec nav) (ef : Nat) (hef : 2 * nav.nlegs + 1 ≤ e
           · rw [((mem_allLegs _ _ _).mp hx).1]; exact fun e => hqp e.symm
           · simp at hx
       · exact ⟨0, (mem_pushAll _ _ _).mpr (Or.inl ((mem_allLegs _ _ _).mpr ⟨rfl, hnv⟩))⟩
-    · refine ⟨[(p, 0, s)], by simp [expandWhole, hed], ?_, ?_, ?_, ⟨0, by simp⟩⟩
+      · intro x hx
+        have hx1 := hall x hx
+        rw [TLeg.side_eq, hx1]
+        by_cases e : x.2.2 = s
+        · rw [e]; exact Relation.ReflTransGen.refl
+        · have : x.2.2 = !s := by cases h1 : x.2.2 <;> cases h2 : s <;> simp_all
+          rw [this]
+          exact Relation.ReflTransGen.single (NAdj.star p s hp hnv hed)
+      · intro x hx hxe
+        rw [hall x hx, hed] at hxe; cases hxe
+    · refine ⟨[(p, 0, s)], by simp [expandWhole, hed], ?_, ?_, ?_, ⟨0, by simp⟩,
+        fun x hx => by rw [List.mem_singleton.mp hx]; exact Relation.ReflTransGen.refl,
+        fun x hx _ => by rw [List.mem_singleton.mp hx]; rfl⟩
       · intro x hx
         rw [List.mem_singleton] at hx
         rw [hx]; exact ⟨⟨hp, hnv⟩, hfree⟩
@@ -840,7 +1010,9 @@ theorem expand_from (hN : NavSpec nav) (ef : Nat) (hef : 2 * nav.nlegs + 1 ≤ e
       fun x _ h => absurd h (hB.fresh _), hstar0⟩
   have hfuel : st0.length + pend nav u < ef := by
     have := pend_le_nlegs hN u; have := nv_le_nlegs hN hp; omega
-  have hres := expandLoop_ok hN hB ef st0 u hinv0 hfuel
+  have hinv20 : ExpInv2 nav u.reps.size (p, s) st0 u :=
+    ⟨fun q h => absurd h (hB.fresh _), hconn0, hedge0, fun q s' _ h => absurd h (hB.fresh _)⟩
+  have hres := expandLoop_ok hN hB (p, s) ef st0 u hinv0 hinv20 hfuel
   rw [← hst0] at hres
   generalize expandWhole nav ef p s u.reps.size u = r at hres
   have hold : ∀ q c', u.lab q = some c' → r.lab q = some c' := fun q c' h => hres.old hB (fun _ => rfl) q c' h
@@ -851,7 +1023,23 @@ theorem expand_from (hN : NavSpec nav) (ef : Nat) (hef : 2 * nav.nlegs + 1 ≤ e
     rcases hres.inv.mono q with h' | h'
     · rw [← h', h]
     · rw [h'.2] at h; cases h
-  refine ⟨⟨hres.inv.sizeIn, hres.inv.sizeOut, hres.inv.notBad, ?_, ?_, ?_, ?_⟩, hstart, hold, ?_, ?_⟩
+  have hstar_r : ∀ q, q < nav.ops.size → 0 < nav.nvAt q → nav.isEdgeAt q = false → r.lab (q, false) = r.lab (q, true) := by
+    intro q hq hqnv heq
+    rcases hres.inv.star q hq heq with h | h
+    · have h1 := h 0 hqnv false
+      have h2 := h 0 hqnv true
+      simp only [List.not_mem_nil, or_false] at h1 h2
+      rw [h1, h2]
+    · have e1 : r.lab (q, false) = u.lab (q, false) := by
+        rcases hres.inv.mono (q, false) with h' | h'
+        · exact h'
+        · exact absurd h'.2 h.1
+      have e2 : r.lab (q, true) = u.lab (q, true) := by
+        rcases hres.inv.mono (q, true) with h' | h'
+        · exact h'
+        · exact absurd h'.2 h.2.1
+      rw [e1, e2]; exact hu.star q hq hqnv heq
+  refine ⟨⟨hres.inv.sizeIn, hres.inv.sizeOut, hres.inv.notBad, ?_, ?_, hstar_r, ?_⟩, hstart, hold, ?_, ?_, ?_⟩
   · intro q c' h
     have h : r.lab q = some c' := h
     show c' < (r.reps.push _).size
@@ -871,33 +1059,23 @@ theorem expand_from (hN : NavSpec nav) (ef : Nat) (hef : 2 * nav.nlegs + 1 ≤ e
       · rw [h] at h'
         exact hold _ _ (hu.closed x hx c' h'.symm)
       · rw [h'.2] at h; exact absurd (Option.some.inj h).symm hc
-  · intro q hq hqnv heq
-    show r.lab (q, false) = r.lab (q, true)
-    rcases hres.inv.star q hq heq with h | h
-    · have h1 := h 0 hqnv false
-      have h2 := h 0 hqnv true
-      simp only [List.not_mem_nil, or_false] at h1 h2
-      rw [h1, h2]
-    · have e1 : r.lab (q, false) = u.lab (q, false) := by
-        rcases hres.inv.mono (q, false) with h' | h'
-        · exact h'
-        · exact absurd h'.2 h.1
-      have e2 : r.lab (q, true) = u.lab (q, true) := by
-        rcases hres.inv.mono (q, true) with h' | h'
-        · exact h'
-        · exact absurd h'.2 h.2.1
-      rw [e1, e2]; exact hu.star q hq hqnv heq
   · intro i hi
     have hi' : i < r.reps.size + 1 := by simpa [Array.size_push] using hi
-    show ∃ q : Nat × Bool, q.1 < nav.ops.size ∧ 0 < nav.nvAt q.1 ∧ (r.reps.push _)[i]! = nav.sideLeg q ∧ r.lab q = some i
+    show ∃ q : Nat × Bool, q.1 < nav.ops.size ∧ 0 < nav.nvAt q.1 ∧ (r.reps.push _)[i]! = nav.sideLeg q ∧
+      r.lab q = some i ∧ ∀ q', r.lab q' = some i → NConn nav q q'
     rw [getElem!_push]
     by_cases hlt : i < r.reps.size
     · rw [if_pos hlt]
-      obtain ⟨q, h1, h2, h3, h4⟩ := hu.repsOK i (by rw [← hres.reps]; exact hlt)
-      exact ⟨q, h1, h2, by rw [hres.reps]; exact h3, hold _ _ h4⟩
+      have hlt' : i < u.reps.size := by rw [← hres.reps]; exact hlt
+      obtain ⟨q, h1, h2, h3, h4, h5⟩ := hu.repsOK i hlt'
+      refine ⟨q, h1, h2, by rw [hres.reps]; exact h3, hold _ _ h4, fun q' hq' => h5 q' ?_⟩
+      rcases hres.inv.mono q' with h' | h'
+      · rw [← h', hq']
+      · rw [h'.2] at hq'; have := Option.some.inj hq'; omega
     · have : i = r.reps.size := by omega
       rw [if_neg hlt, if_pos this]
-      exact ⟨(p, s), hp, hnv, rfl, by rw [this, hres.reps]; exact hstart⟩
+      exact ⟨(p, s), hp, hnv, rfl, by rw [this, hres.reps]; exact hstart,
+        fun q' hq' => hres.inv2.conn q' (by rw [this, hres.reps] at hq'; exact hq')⟩
   · -- the termination measure
     have hgap : unl nav r + (2 * nav.nvAt p + 3) ≤ unl nav u := by
       unfold unl
@@ -940,6 +1118,32 @@ theorem expand_from (hN : NavSpec nav) (ef : Nat) (hef : 2 * nav.nlegs + 1 ≤ e
     · exact Or.inl h
     · right
       exact ⟨h.2.1, by rw [hN.edge1 _ h.1]; exact Nat.one_pos, by rw [h.2.2]; rfl⟩
+  · intro q s' hq hqnv hsome hn
+    left
+    obtain ⟨c'', hc''⟩ := Option.isSome_iff_exists.mp hsome
+    by_cases hc : c'' = u.reps.size
+    · rw [hc] at hc''
+      cases hed : nav.isEdgeAt q
+      · exfalso
+        have := hstar_r q hq hqnv hed
+        cases s'
+        · simp only [Bool.not_false] at hn; rw [hc'', hn] at this; cases this
+        · simp only [Bool.not_true] at hn; rw [hc'', hn] at this; cases this
+      · rcases hres.inv2.half q s' hed hc'' hn with h | h
+        · exact h
+        · have e1 : q = p := (Prod.mk.inj h).1
+          have e2 : s' = s := (Prod.mk.inj h).2
+          rw [e1, e2] at hn ⊢
+          exact hres.fsub _ (hsib (hnone _ hn))
+    · have hu1 : u.lab (q, s') = some c'' := by
+        rcases hres.inv.mono (q, s') with h' | h'
+        · rw [← h', hc'']
+        · rw [h'.2] at hc''; exact absurd (Option.some.inj hc'').symm hc
+      rcases hhalf q s' hq hqnv (by rw [hu1]; rfl) (hnone _ hn) with h | h
+      · exact hres.fsub _ h
+      · exfalso
+        have h : (q, !s') = (p, s) := h
+        rw [h, hstart] at hn; cases hn
 
 def Psi (nav : Nav) (t : Trav) : Nat := t.frontier.length + pend nav t + unl nav t
 
@@ -970,9 +1174,10 @@ theorem travLoop_pop (hN : NavSpec nav) (ef : Nat) (hef : 2 * nav.nlegs + 1 ≤ 
     (hp : p < nav.ops.size) (hnv : 0 < nav.nvAt p)
     (hfree : ((t.lab (p, false)).isSome && (t.lab (p, true)).isSome) = false → t.lab (p, s) = none)
     (hboth : ((t.lab (p, false)).isSome && (t.lab (p, true)).isSome) = true → (t.lab (p, s)).isSome = true)
-    (hrest : ∀ e ∈ rest, GOK nav t e ∨ e = (p, !s)) :
+    (hrest : ∀ e ∈ rest, GOK nav t e ∨ e = (p, !s)) (hhalf : HalfOK nav t (fun _ => False))
+    (hsib : t.lab (p, !s) = none → (p, !s) ∈ rest) :
     ∃ t'', travLoop nav ef (fuel + 1) t = travLoop nav ef fuel t'' ∧ OutInv nav t'' ∧
-      (∀ e ∈ t''.frontier, GOK nav t'' e) ∧
+      (∀ e ∈ t''.frontier, GOK nav t'' e) ∧ HalfOK nav t'' (fun _ => False) ∧
       ((((t.lab (p, false)).isSome && (t.lab (p, true)).isSome) = true ∧ Psi nav t'' + 1 ≤ Psi nav t) ∨
         Psi nav t'' + 4 ≤ Psi nav t) := by
   rw [travLoop_cons ef fuel t p s rest hfr]
@@ -983,8 +1188,17 @@ theorem travLoop_pop (hN : NavSpec nav) (ef : Nat) (hef : 2 * nav.nlegs + 1 ≤ 
     simp only [Bool.false_eq_true, if_false]
     have hu' : OutInv nav { t with frontier := rest } :=
       ⟨hu.sizeIn, hu.sizeOut, hu.notBad, hu.labLt, hu.closed, hu.star, hu.repsOK⟩
-    obtain ⟨h1, h2, h3, h4, h5⟩ := expand_from hN ef hef { t with frontier := rest } hu' p s hp hnv (hfree hb)
-    refine ⟨_, rfl, h1, ?_, Or.inr ?_⟩
+    have hhalf' : HalfOK nav { t with frontier := rest } (fun e => e = (p, s)) := by
+      intro q s' hq hqnv hsome hn
+      rcases hhalf q s' hq hqnv hsome hn with h | h
+      · rw [hfr] at h
+        rcases List.mem_cons.mp h with h | h
+        · exact Or.inr h
+        · exact Or.inl h
+      · exact absurd h id
+    obtain ⟨h1, h2, h3, h4, h5, h6⟩ := expand_from hN ef hef { t with frontier := rest } hu' p s hp hnv (hfree hb)
+      hhalf' hsib
+    refine ⟨_, rfl, h1, ?_, h6, Or.inr ?_⟩
     · intro e he
       rcases h5 e he with h | h
       · rcases hrest e h with h' | h'
@@ -1013,13 +1227,23 @@ theorem travLoop_pop (hN : NavSpec nav) (ef : Nat) (hef : 2 * nav.nlegs + 1 ≤ 
       unfold Psi at e1 ⊢
       omega
   · simp only [if_true]
-    refine ⟨_, rfl, ⟨hu.sizeIn, hu.sizeOut, hu.notBad, hu.labLt, hu.closed, hu.star, hu.repsOK⟩, ?_, Or.inl ⟨by simp, ?_⟩⟩
+    refine ⟨_, rfl, ⟨hu.sizeIn, hu.sizeOut, hu.notBad, hu.labLt, hu.closed, hu.star, hu.repsOK⟩, ?_, ?_, Or.inl ⟨by simp, ?_⟩⟩
     · intro e he
       rcases hrest e he with h | h
       · exact h
       · refine ⟨by rw [h]; exact hp, by rw [h]; exact hnv, ?_⟩
         rw [h]; simp only [Bool.not_not]
         exact hboth hb
+    · intro q s' hq hqnv hsome hn
+      rcases hhalf q s' hq hqnv hsome hn with h | h
+      · rw [hfr] at h
+        rcases List.mem_cons.mp h with h | h
+        · exfalso
+          have hn' : t.lab (p, s) = none := by rw [← h]; exact hn
+          have := hboth hb
+          rw [hn'] at this; cases this
+        · exact Or.inl h
+      · exact absurd h id
     · unfold Psi
       have : pend nav { t with frontier := rest } = pend nav t := rfl
       have : unl nav { t with frontier := rest } = unl nav t := rfl
@@ -1036,11 +1260,13 @@ theorem unmapped_some (t : Trav) (p : Nat) (h : t.unmapped nav = some p) :
 /-- **the outer loop**: from a state satisfying the invariant, with a frontier whose entries have their other side
 labelled, and enough fuel, `travLoop` stops in a state satisfying the invariant (in particular not `bad`) -/
 theorem travLoop_ok (hN : NavSpec nav) (ef : Nat) (hef : 2 * nav.nlegs + 1 ≤ ef) : ∀ (fuel : Nat) (t : Trav),
-    OutInv nav t → (∀ e ∈ t.frontier, GOK nav t e) → Psi nav t < fuel → OutInv nav (travLoop nav ef fuel t) := by
+    OutInv nav t → (∀ e ∈ t.frontier, GOK nav t e) → HalfOK nav t (fun _ => False) → Psi nav t < fuel →
+    OutInv nav (travLoop nav ef fuel t) ∧ HalfOK nav (travLoop nav ef fuel t) (fun _ => False) ∧
+      (travLoop nav ef fuel t).frontier = [] ∧ (travLoop nav ef fuel t).unmapped nav = none := by
   intro fuel
   induction fuel using Nat.strong_induction_on with
   | _ fuel ih =>
-    intro t hu hG hpsi
+    intro t hu hG hH hpsi
     cases fuel with
     | zero => exact absurd hpsi (Nat.not_lt_zero _)
     | succ fuel =>
@@ -1068,14 +1294,15 @@ theorem travLoop_ok (hN : NavSpec nav) (ef : Nat) (hef : 2 * nav.nlegs + 1 ≤ e
           cases s
           · exact hb.1
           · exact hb.2
-        obtain ⟨t'', heq, hu'', hG'', hm⟩ := travLoop_pop hN ef hef fuel t hu p s rest hfr hGe.1 hGe.2.1 hfree hboth
-          (fun e he => Or.inl (hG e (by rw [hfr]; exact List.mem_cons_of_mem _ he)))
+        obtain ⟨t'', heq, hu'', hG'', hH'', hm⟩ := travLoop_pop hN ef hef fuel t hu p s rest hfr hGe.1 hGe.2.1 hfree hboth
+          (fun e he => Or.inl (hG e (by rw [hfr]; exact List.mem_cons_of_mem _ he))) hH
+          (fun hn => by have := hGe.2.2; rw [hn] at this; cases this)
         rw [heq]
-        exact ih fuel (Nat.lt_succ_self _) t'' hu'' hG'' (by rcases hm with h | h <;> omega)
+        exact ih fuel (Nat.lt_succ_self _) t'' hu'' hG'' hH'' (by rcases hm with h | h <;> omega)
       | nil =>
         rw [travLoop_nil ef fuel t hfr]
         cases hun : t.unmapped nav with
-        | none => exact hu
+        | none => exact ⟨hu, hH, hfr, hun⟩
         | some p =>
           simp only
           obtain ⟨hp, hop, hl1, hl2⟩ := unmapped_some t p hun
@@ -1094,17 +1321,22 @@ theorem travLoop_ok (hN : NavSpec nav) (ef : Nat) (hef : 2 * nav.nlegs + 1 ≤ e
             have hu2 : OutInv nav { t with frontier := [(p, false), (p, true)] } :=
               ⟨hu.sizeIn, hu.sizeOut, hu.notBad, hu.labLt, hu.closed, hu.star, hu.repsOK⟩
             have hlab2 : ∀ q, ({ t with frontier := [(p, false), (p, true)] } : Trav).lab q = t.lab q := fun _ => rfl
-            obtain ⟨t'', heq, hu'', hG'', hm⟩ := travLoop_pop hN ef hef fuel
+            have hH2 : HalfOK nav { t with frontier := [(p, false), (p, true)] } (fun _ => False) := by
+              intro q s' hq hqnv hsome hn
+              rcases hH q s' hq hqnv hsome hn with h | h
+              · rw [hfr] at h; simp at h
+              · exact absurd h id
+            obtain ⟨t'', heq, hu'', hG'', hH'', hm⟩ := travLoop_pop hN ef hef fuel
               { t with frontier := [(p, false), (p, true)] } hu2 p false [(p, true)] rfl hp hnv
               (fun _ => by rw [hlab2]; exact hl1) (fun hb => by rw [hlab2, hl1] at hb; simp at hb)
-              (fun e he => Or.inr (by simpa using he))
+              (fun e he => Or.inr (by simpa using he)) hH2 (fun _ => by simp)
             rw [heq]
             have hpsi2 : Psi nav { t with frontier := [(p, false), (p, true)] } = Psi nav t + 2 := by
               unfold Psi
               have : pend nav { t with frontier := [(p, false), (p, true)] } = pend nav t := rfl
               have : unl nav { t with frontier := [(p, false), (p, true)] } = unl nav t := rfl
               rw [hfr]; simp; omega
-            refine ih fuel (by omega) t'' hu'' hG'' ?_
+            refine ih fuel (by omega) t'' hu'' hG'' hH'' ?_
             rcases hm with h | h
             · rw [hlab2, hl1] at h; simp at h
             · omega
